@@ -4,15 +4,17 @@
 //! -> extract_measurements_inner -> recording ReadHandler. The oracle is `carry`, a function written from the
 //! statement: what a variation can carry of a recorded (value, flags, time).
 use crate::app::measurement::*;
-use crate::app::parse::parser::ParsedFragment;
 use crate::app::parse::options::ParseOptions;
+use crate::app::parse::parser::ParsedFragment;
 use crate::app::Timestamp;
 use crate::master::extract::extract_measurements_inner;
 use crate::master::EventClasses;
 use crate::outstation::database::*;
 use crate::outstation::OutstationApplication;
 use crate::verif::engine::*;
-use crate::verif::props::ost::{add_point, PointSpec, EVENT_GROUP, EVENT_VARS, STATIC_GROUP, STATIC_VARS, TYPE_NAMES};
+use crate::verif::props::ost::{
+    add_point, PointSpec, EVENT_GROUP, EVENT_VARS, STATIC_GROUP, STATIC_VARS, TYPE_NAMES,
+};
 use crate::verif::rig::exec::block_on_ready;
 use crate::verif::rig::handler::{HEv, Item, RecHandler};
 use crate::verif::wire::app::{self as ra, func, Fragment};
@@ -82,7 +84,13 @@ struct NullApp;
 impl OutstationApplication for NullApp {}
 
 fn time_of(t: Option<(u64, bool)>) -> Option<Time> {
-    t.map(|(ms, sync)| if sync { Time::Synchronized(Timestamp::new(ms)) } else { Time::Unsynchronized(Timestamp::new(ms)) })
+    t.map(|(ms, sync)| {
+        if sync {
+            Time::Synchronized(Timestamp::new(ms))
+        } else {
+            Time::Unsynchronized(Timestamp::new(ms))
+        }
+    })
 }
 fn time_back(t: Option<Time>) -> Option<(u64, bool)> {
     t.map(|t| match t {
@@ -113,9 +121,17 @@ fn rec_of(ty: u8, u: &Upd) -> Rec {
         1 => Value::Dbl((u.c & 3) as u8),
         3 | 4 => Value::Cnt(u.c),
         5 | 6 => Value::Ana(f64::from_bits(u.a)),
-        _ => Value::Oct(if u.bytes.is_empty() { vec![u.c as u8] } else { u.bytes.clone() }),
+        _ => Value::Oct(if u.bytes.is_empty() {
+            vec![u.c as u8]
+        } else {
+            u.bytes.clone()
+        }),
     };
-    let (flags, time) = if ty == 7 { (0, None) } else { (u.flags, u.time) };
+    let (flags, time) = if ty == 7 {
+        (0, None)
+    } else {
+        (u.flags, u.time)
+    };
     Rec { value, flags, time }
 }
 
@@ -123,13 +139,69 @@ fn apply(db: &mut Database, ty: u8, index: u16, r: &Rec, options: UpdateOptions)
     let flags = Flags::new(r.flags);
     let time = time_of(r.time);
     match (&r.value, ty) {
-        (Value::Bool(v), 0) => db.update2(index, &BinaryInput { value: *v, flags, time }, options),
-        (Value::Dbl(v), 1) => db.update2(index, &DoubleBitBinaryInput { value: double_bit(*v), flags, time }, options),
-        (Value::Bool(v), 2) => db.update2(index, &BinaryOutputStatus { value: *v, flags, time }, options),
-        (Value::Cnt(v), 3) => db.update2(index, &Counter { value: *v, flags, time }, options),
-        (Value::Cnt(v), 4) => db.update2(index, &FrozenCounter { value: *v, flags, time }, options),
-        (Value::Ana(v), 5) => db.update2(index, &AnalogInput { value: *v, flags, time }, options),
-        (Value::Ana(v), 6) => db.update2(index, &AnalogOutputStatus { value: *v, flags, time }, options),
+        (Value::Bool(v), 0) => db.update2(
+            index,
+            &BinaryInput {
+                value: *v,
+                flags,
+                time,
+            },
+            options,
+        ),
+        (Value::Dbl(v), 1) => db.update2(
+            index,
+            &DoubleBitBinaryInput {
+                value: double_bit(*v),
+                flags,
+                time,
+            },
+            options,
+        ),
+        (Value::Bool(v), 2) => db.update2(
+            index,
+            &BinaryOutputStatus {
+                value: *v,
+                flags,
+                time,
+            },
+            options,
+        ),
+        (Value::Cnt(v), 3) => db.update2(
+            index,
+            &Counter {
+                value: *v,
+                flags,
+                time,
+            },
+            options,
+        ),
+        (Value::Cnt(v), 4) => db.update2(
+            index,
+            &FrozenCounter {
+                value: *v,
+                flags,
+                time,
+            },
+            options,
+        ),
+        (Value::Ana(v), 5) => db.update2(
+            index,
+            &AnalogInput {
+                value: *v,
+                flags,
+                time,
+            },
+            options,
+        ),
+        (Value::Ana(v), 6) => db.update2(
+            index,
+            &AnalogOutputStatus {
+                value: *v,
+                flags,
+                time,
+            },
+            options,
+        ),
         (Value::Oct(b), 7) => match OctetString::new(b) {
             Ok(s) => db.update2(index, &s, options),
             Err(_) => UpdateInfo::NoPoint,
@@ -140,14 +212,46 @@ fn apply(db: &mut Database, ty: u8, index: u16, r: &Rec, options: UpdateOptions)
 
 fn current(db: &Database, ty: u8, index: u16) -> Option<Rec> {
     match ty {
-        0 => Get::<BinaryInput>::get(db, index).map(|v| Rec { value: Value::Bool(v.value), flags: v.flags.value, time: time_back(v.time) }),
-        1 => Get::<DoubleBitBinaryInput>::get(db, index).map(|v| Rec { value: Value::Dbl(dbl_back(v.value)), flags: v.flags.value, time: time_back(v.time) }),
-        2 => Get::<BinaryOutputStatus>::get(db, index).map(|v| Rec { value: Value::Bool(v.value), flags: v.flags.value, time: time_back(v.time) }),
-        3 => Get::<Counter>::get(db, index).map(|v| Rec { value: Value::Cnt(v.value), flags: v.flags.value, time: time_back(v.time) }),
-        4 => Get::<FrozenCounter>::get(db, index).map(|v| Rec { value: Value::Cnt(v.value), flags: v.flags.value, time: time_back(v.time) }),
-        5 => Get::<AnalogInput>::get(db, index).map(|v| Rec { value: Value::Ana(v.value), flags: v.flags.value, time: time_back(v.time) }),
-        6 => Get::<AnalogOutputStatus>::get(db, index).map(|v| Rec { value: Value::Ana(v.value), flags: v.flags.value, time: time_back(v.time) }),
-        _ => Get::<OctetString>::get(db, index).map(|v| Rec { value: Value::Oct(v.value().to_vec()), flags: 0, time: None }),
+        0 => Get::<BinaryInput>::get(db, index).map(|v| Rec {
+            value: Value::Bool(v.value),
+            flags: v.flags.value,
+            time: time_back(v.time),
+        }),
+        1 => Get::<DoubleBitBinaryInput>::get(db, index).map(|v| Rec {
+            value: Value::Dbl(dbl_back(v.value)),
+            flags: v.flags.value,
+            time: time_back(v.time),
+        }),
+        2 => Get::<BinaryOutputStatus>::get(db, index).map(|v| Rec {
+            value: Value::Bool(v.value),
+            flags: v.flags.value,
+            time: time_back(v.time),
+        }),
+        3 => Get::<Counter>::get(db, index).map(|v| Rec {
+            value: Value::Cnt(v.value),
+            flags: v.flags.value,
+            time: time_back(v.time),
+        }),
+        4 => Get::<FrozenCounter>::get(db, index).map(|v| Rec {
+            value: Value::Cnt(v.value),
+            flags: v.flags.value,
+            time: time_back(v.time),
+        }),
+        5 => Get::<AnalogInput>::get(db, index).map(|v| Rec {
+            value: Value::Ana(v.value),
+            flags: v.flags.value,
+            time: time_back(v.time),
+        }),
+        6 => Get::<AnalogOutputStatus>::get(db, index).map(|v| Rec {
+            value: Value::Ana(v.value),
+            flags: v.flags.value,
+            time: time_back(v.time),
+        }),
+        _ => Get::<OctetString>::get(db, index).map(|v| Rec {
+            value: Value::Oct(v.value().to_vec()),
+            flags: 0,
+            time: None,
+        }),
     }
 }
 
@@ -187,7 +291,14 @@ struct Shape {
 
 /// shape of each measurement variation, from IEEE 1815 Annex A
 fn shape(g: u8, v: u8) -> Option<Shape> {
-    let s = |flags, packed, num, tm| Some(Shape { flags, packed, num, tm });
+    let s = |flags, packed, num, tm| {
+        Some(Shape {
+            flags,
+            packed,
+            num,
+            tm,
+        })
+    };
     use Num::*;
     match (g, v) {
         (1, 1) | (3, 1) | (10, 1) => s(false, true, None, Tm::No),
@@ -229,16 +340,26 @@ fn state_mask(ty: u8) -> u8 {
 /// compare what the handler received with what variation (g, v) can carry of `rec`; Ok(lossy?) or Err(description)
 fn carry_check(ty: u8, g: u8, v: u8, rec: &Rec, got: &Item) -> Result<bool, String> {
     if ty == 7 {
-        let Value::Oct(b) = &rec.value else { return Err("record is not an octet string".into()) };
+        let Value::Oct(b) = &rec.value else {
+            return Err("record is not an octet string".into());
+        };
         if got.bytes != *b {
-            return Err(format!("octet string {:02x?} delivered as {:02x?}", b, got.bytes));
+            return Err(format!(
+                "octet string {:02x?} delivered as {:02x?}",
+                b, got.bytes
+            ));
         }
         if v as usize != b.len() {
-            return Err(format!("octet string of {} bytes reported in variation {}", b.len(), v));
+            return Err(format!(
+                "octet string of {} bytes reported in variation {}",
+                b.len(),
+                v
+            ));
         }
         return Ok(false);
     }
-    let sh = shape(g, v).ok_or_else(|| format!("g{g}v{v} is not a measurement variation of this type"))?;
+    let sh = shape(g, v)
+        .ok_or_else(|| format!("g{g}v{v} is not a measurement variation of this type"))?;
     let mut lossy = false;
     let sm = state_mask(ty);
     // ---- value and the flags that go with it
@@ -264,12 +385,17 @@ fn carry_check(ty: u8, g: u8, v: u8, rec: &Rec, got: &Item) -> Result<bool, Stri
                 _ => return Err(format!("counter reported in g{g}v{v}")),
             };
             if got.value != want as f64 {
-                return Err(format!("counter {} must arrive as {} in g{g}v{v}, arrived as {}", c, want, got.value));
+                return Err(format!(
+                    "counter {} must arrive as {} in g{g}v{v}, arrived as {}",
+                    c, want, got.value
+                ));
             }
         }
         Value::Ana(x) => {
             let x = *x;
-            let num = sh.num.ok_or_else(|| format!("analog reported in g{g}v{v}"))?;
+            let num = sh
+                .num
+                .ok_or_else(|| format!("analog reported in g{g}v{v}"))?;
             if x.is_nan() {
                 // NaN into an integer variation is left open by the statement; into a float variation it stays NaN
                 match num {
@@ -284,7 +410,10 @@ fn carry_check(ty: u8, g: u8, v: u8, rec: &Rec, got: &Item) -> Result<bool, Stri
                 match num {
                     Num::F64 => {
                         if got.value.to_bits() != x.to_bits() {
-                            return Err(format!("{x:e} delivered as {:e} in a 64-bit float variation", got.value));
+                            return Err(format!(
+                                "{x:e} delivered as {:e} in a 64-bit float variation",
+                                got.value
+                            ));
                         }
                     }
                     Num::F32 => {
@@ -298,23 +427,38 @@ fn carry_check(ty: u8, g: u8, v: u8, rec: &Rec, got: &Item) -> Result<bool, Stri
                             } else if sat {
                                 want_flags |= OVER_RANGE;
                             } else {
-                                return Err(format!("{x} delivered as {:e} in g{g}v{v}", got.value));
+                                return Err(format!(
+                                    "{x} delivered as {:e} in g{g}v{v}",
+                                    got.value
+                                ));
                             }
                         } else if x.abs() > max {
                             lossy = true;
                             want_flags |= OVER_RANGE;
                             if got.value != max.copysign(x) {
-                                return Err(format!("{x:e} exceeds binary32: must saturate to {:e}, delivered {:e}", max.copysign(x), got.value));
+                                return Err(format!(
+                                    "{x:e} exceeds binary32: must saturate to {:e}, delivered {:e}",
+                                    max.copysign(x),
+                                    got.value
+                                ));
                             }
                         } else {
                             lossy |= (x as f32) as f64 != x;
                             if got.value.to_bits() != ((x as f32) as f64).to_bits() {
-                                return Err(format!("{x:e} must arrive as {:e} in g{g}v{v}, arrived as {:e}", (x as f32) as f64, got.value));
+                                return Err(format!(
+                                    "{x:e} must arrive as {:e} in g{g}v{v}, arrived as {:e}",
+                                    (x as f32) as f64,
+                                    got.value
+                                ));
                             }
                         }
                     }
                     Num::I32 | Num::I16 => {
-                        let (lo, hi) = if num == Num::I32 { (i32::MIN as f64, i32::MAX as f64) } else { (i16::MIN as f64, i16::MAX as f64) };
+                        let (lo, hi) = if num == Num::I32 {
+                            (i32::MIN as f64, i32::MAX as f64)
+                        } else {
+                            (i16::MIN as f64, i16::MAX as f64)
+                        };
                         let t = x.trunc();
                         lossy |= t != x;
                         if x.is_infinite() || t < lo || t > hi {
@@ -328,7 +472,10 @@ fn carry_check(ty: u8, g: u8, v: u8, rec: &Rec, got: &Item) -> Result<bool, Stri
                             // a fraction beyond the last integer: truncated without a flag, or saturated with the flag
                             let sat = if x < 0.0 { lo } else { hi };
                             if got.value != sat {
-                                return Err(format!("{x:e} delivered as {} in g{g}v{v}", got.value));
+                                return Err(format!(
+                                    "{x:e} delivered as {} in g{g}v{v}",
+                                    got.value
+                                ));
                             }
                             if sh.flags && (got.flags & !sm) == ((rec.flags | OVER_RANGE) & !sm) {
                                 want_flags |= OVER_RANGE;
@@ -336,7 +483,10 @@ fn carry_check(ty: u8, g: u8, v: u8, rec: &Rec, got: &Item) -> Result<bool, Stri
                         } else {
                             let ok = got.value == x.floor() || got.value == x.ceil();
                             if !ok {
-                                return Err(format!("{x:e} delivered as {} in g{g}v{v}", got.value));
+                                return Err(format!(
+                                    "{x:e} delivered as {} in g{g}v{v}",
+                                    got.value
+                                ));
                             }
                         }
                     }
@@ -350,19 +500,31 @@ fn carry_check(ty: u8, g: u8, v: u8, rec: &Rec, got: &Item) -> Result<bool, Stri
     if sh.packed {
         // packed formats only for plainly ONLINE points
         if rec.flags & !sm != ONLINE {
-            return Err(format!("packed variation g{g}v{v} used for a point whose flags are {:#04x}", rec.flags));
+            return Err(format!(
+                "packed variation g{g}v{v} used for a point whose flags are {:#04x}",
+                rec.flags
+            ));
         }
         if got.flags & !sm != ONLINE {
-            return Err(format!("packed variation delivered flags {:#04x}", got.flags));
+            return Err(format!(
+                "packed variation delivered flags {:#04x}",
+                got.flags
+            ));
         }
     } else if sh.flags {
         if got.flags & !sm != want_flags & !sm {
-            return Err(format!("flags {:#04x} (expected {:#04x}) for value {:?} in g{g}v{v}", got.flags, want_flags, rec.value));
+            return Err(format!(
+                "flags {:#04x} (expected {:#04x}) for value {:?} in g{g}v{v}",
+                got.flags, want_flags, rec.value
+            ));
         }
     } else {
         lossy |= rec.flags != ONLINE;
         if got.flags != ONLINE {
-            return Err(format!("variation g{g}v{v} has no flag octet: must deliver ONLINE, delivered {:#04x}", got.flags));
+            return Err(format!(
+                "variation g{g}v{v} has no flag octet: must deliver ONLINE, delivered {:#04x}",
+                got.flags
+            ));
         }
     }
     // ---- time
@@ -370,7 +532,10 @@ fn carry_check(ty: u8, g: u8, v: u8, rec: &Rec, got: &Item) -> Result<bool, Stri
         Tm::No => {
             lossy |= rec.time.is_some();
             if got.time.is_some() {
-                return Err(format!("variation g{g}v{v} carries no time, delivered {:?}", got.time));
+                return Err(format!(
+                    "variation g{g}v{v} carries no time, delivered {:?}",
+                    got.time
+                ));
             }
         }
         Tm::Abs => match (rec.time, got.time) {
@@ -389,7 +554,11 @@ fn carry_check(ty: u8, g: u8, v: u8, rec: &Rec, got: &Item) -> Result<bool, Stri
                 }
             }
             (None, Some(_)) => {}
-            (_, None) => return Err(format!("relative-time variation g{g}v{v} delivered no time")),
+            (_, None) => {
+                return Err(format!(
+                    "relative-time variation g{g}v{v} delivered no time"
+                ))
+            }
         },
     }
     Ok(lossy)
@@ -422,19 +591,31 @@ fn encode_request(reqs: &[Req]) -> Vec<u8> {
         match r {
             Req::Class0 => o.extend(ra::h_all(60, 1)),
             Req::Class(c) => o.extend(ra::h_all(60, 1 + (*c).clamp(1, 3))),
-            Req::StaticAll(ty, k) => o.extend(ra::h_all(STATIC_GROUP[(*ty % 8) as usize], svar(*ty % 8, *k).unwrap_or(0))),
+            Req::StaticAll(ty, k) => o.extend(ra::h_all(
+                STATIC_GROUP[(*ty % 8) as usize],
+                svar(*ty % 8, *k).unwrap_or(0),
+            )),
             Req::StaticRange(ty, k, a, b) => {
                 let (a, b) = (*a.min(b), *a.max(b));
-                let (g, v) = (STATIC_GROUP[(*ty % 8) as usize], svar(*ty % 8, *k).unwrap_or(0));
+                let (g, v) = (
+                    STATIC_GROUP[(*ty % 8) as usize],
+                    svar(*ty % 8, *k).unwrap_or(0),
+                );
                 if b > 255 {
                     o.extend(ra::h_range16(g, v, a, b, &[]));
                 } else {
                     o.extend(ra::h_range8(g, v, a as u8, b as u8, &[]));
                 }
             }
-            Req::EventAll(ty, k) => o.extend(ra::h_all(EVENT_GROUP[(*ty % 8) as usize], evar(*ty % 8, *k).unwrap_or(0))),
+            Req::EventAll(ty, k) => o.extend(ra::h_all(
+                EVENT_GROUP[(*ty % 8) as usize],
+                evar(*ty % 8, *k).unwrap_or(0),
+            )),
             Req::EventCount(ty, k, n) => {
-                let (g, v) = (EVENT_GROUP[(*ty % 8) as usize], evar(*ty % 8, *k).unwrap_or(0));
+                let (g, v) = (
+                    EVENT_GROUP[(*ty % 8) as usize],
+                    evar(*ty % 8, *k).unwrap_or(0),
+                );
                 if *n > 255 {
                     o.extend(ra::h_count16(g, v, *n, &[]));
                 } else {
@@ -460,9 +641,18 @@ fn fail(out: &mut CaseOut, clause: &str, detail: String) {
 }
 
 pub fn run_case(case: &Case) -> CaseOut {
+    run_case_with(case, false)
+}
+
+/// `agreement`: also apply the C09 accept=>exact agreement to every fragment
+pub fn run_case_with(case: &Case, agreement: bool) -> CaseOut {
     let mut out = CaseOut::default();
     ParseOptions::parse_zero_length_strings(false);
-    let mut handle = DatabaseHandle::new(None, ClassZeroConfig::new(true, true, true, true, true, true, true, true), EventBufferConfig::all_types(400));
+    let mut handle = DatabaseHandle::new(
+        None,
+        ClassZeroConfig::new(true, true, true, true, true, true, true, true),
+        EventBufferConfig::all_types(400),
+    );
     // ---- points
     let mut specs: BTreeMap<(u8, u16), PointSpec> = BTreeMap::new();
     let mut order: Vec<(u8, u16)> = vec![];
@@ -501,22 +691,47 @@ pub fn run_case(case: &Case) -> CaseOut {
                 1 => EventMode::Force,
                 _ => EventMode::Suppress,
             };
-            let info = apply(db, key.0, key.1, &rec, UpdateOptions::new(u.update_static, mode));
-            let mut created = |id: u64| events.push(Ev { id, ty: key.0, index: key.1, class: spec.class, evar: spec.evar, rec: rec.clone() });
+            let info = apply(
+                db,
+                key.0,
+                key.1,
+                &rec,
+                UpdateOptions::new(u.update_static, mode),
+            );
+            let mut created = |id: u64| {
+                events.push(Ev {
+                    id,
+                    ty: key.0,
+                    index: key.1,
+                    class: spec.class,
+                    evar: spec.evar,
+                    rec: rec.clone(),
+                })
+            };
             match info {
-                UpdateInfo::NoPoint => bad = Some(format!("update of existing point {:?} returned NoPoint", key)),
+                UpdateInfo::NoPoint => {
+                    bad = Some(format!(
+                        "update of existing point {:?} returned NoPoint",
+                        key
+                    ))
+                }
                 UpdateInfo::NoEvent => {
                     if mode == EventMode::Force {
                         bad = Some(format!("forced update of {:?} created no event", key));
                     }
                 }
                 UpdateInfo::Created(id) => created(id),
-                UpdateInfo::Overflow { created: id, discarded } => {
+                UpdateInfo::Overflow {
+                    created: id,
+                    discarded,
+                } => {
                     created(id);
                     events.retain(|e| e.id != discarded);
                 }
             }
-            if mode == EventMode::Suppress && matches!(info, UpdateInfo::Created(_) | UpdateInfo::Overflow { .. }) {
+            if mode == EventMode::Suppress
+                && matches!(info, UpdateInfo::Created(_) | UpdateInfo::Overflow { .. })
+            {
                 bad = Some(format!("suppressed update of {:?} created an event", key));
             }
             if u.update_static {
@@ -525,7 +740,12 @@ pub fn run_case(case: &Case) -> CaseOut {
             // Database::get tells the truth about the current value
             match (current(db, key.0, key.1), cur.get(&key)) {
                 (Some(a), Some(b)) if same_rec(&a, b) => {}
-                (a, b) => bad = Some(format!("Database::get of {:?} = {:?}, last static update = {:?}", key, a, b)),
+                (a, b) => {
+                    bad = Some(format!(
+                        "Database::get of {:?} = {:?}, last static update = {:?}",
+                        key, a, b
+                    ))
+                }
             }
         }
     });
@@ -561,16 +781,28 @@ pub fn run_case(case: &Case) -> CaseOut {
         }
     } else {
         let req = Fragment::request(0, func::READ, encode_request(&case.reqs)).encode();
-        let parsed = match ParsedFragment::parse(ParseOptions::default(), &req).ok().and_then(|p| p.to_request().ok()).and_then(|r| r.objects.ok()) {
+        let parsed = match ParsedFragment::parse(ParseOptions::default(), &req)
+            .ok()
+            .and_then(|p| p.to_request().ok())
+            .and_then(|r| r.objects.ok())
+        {
             Some(h) => h,
             None => {
-                fail(&mut out, "G-request", format!("library parser rejected the READ request {:02x?}", req));
+                fail(
+                    &mut out,
+                    "G-request",
+                    format!("library parser rejected the READ request {:02x?}", req),
+                );
                 return out;
             }
         };
         let iin2 = handle.select(&parsed);
         if iin2 != crate::app::Iin2::default() {
-            fail(&mut out, "G-request", format!("READ request {:02x?} rejected with IIN2 {:?}", req, iin2));
+            fail(
+                &mut out,
+                "G-request",
+                format!("READ request {:02x?} rejected with IIN2 {:?}", req, iin2),
+            );
             return out;
         }
         limited = case.reqs.iter().any(|r| matches!(r, Req::EventCount(..)));
@@ -589,12 +821,20 @@ pub fn run_case(case: &Case) -> CaseOut {
                 break;
             }
             if len == 0 {
-                fail(&mut out, "G-progress", "an empty, incomplete response fragment was produced".into());
+                fail(
+                    &mut out,
+                    "G-progress",
+                    "an empty, incomplete response fragment was produced".into(),
+                );
                 return out;
             }
         }
         if !done {
-            fail(&mut out, "G-progress", "response series did not complete in 5000 fragments".into());
+            fail(
+                &mut out,
+                "G-progress",
+                "response series did not complete in 5000 fragments".into(),
+            );
             return out;
         }
     }
@@ -607,23 +847,50 @@ pub fn run_case(case: &Case) -> CaseOut {
     for f in &fragments {
         // every byte must be accounted for by the reference walker, too
         if let Err(e) = ra::walk(f[1], &f[4..]) {
-            fail(&mut out, "W-reference-walk", format!("reference walker rejects the fragment: {:?}; {:02x?}", e, f));
+            fail(
+                &mut out,
+                "W-reference-walk",
+                format!("reference walker rejects the fragment: {:?}; {:02x?}", e, f),
+            );
             return out;
         }
-        let resp = match ParsedFragment::parse(ParseOptions::default(), f).ok().and_then(|p| p.to_response().ok()) {
+        let resp = match ParsedFragment::parse(ParseOptions::default(), f)
+            .ok()
+            .and_then(|p| p.to_response().ok())
+        {
             Some(r) => r,
             None => {
-                fail(&mut out, "W-parse", format!("library parser rejects the library's own fragment {:02x?}", f));
+                fail(
+                    &mut out,
+                    "W-parse",
+                    format!(
+                        "library parser rejects the library's own fragment {:02x?}",
+                        f
+                    ),
+                );
                 return out;
             }
         };
         let objs = match resp.objects {
             Ok(o) => o,
             Err(e) => {
-                fail(&mut out, "W-parse", format!("library parser rejects the objects of its own fragment: {:?}; {:02x?}", e, f));
+                fail(
+                    &mut out,
+                    "W-parse",
+                    format!(
+                        "library parser rejects the objects of its own fragment: {:?}; {:02x?}",
+                        e, f
+                    ),
+                );
                 return out;
             }
         };
+        if agreement {
+            if let Err(fl) = crate::verif::props::c09::agree(f[1], &f[4..], &objs) {
+                out.fail(fl);
+                return out;
+            }
+        }
         let mut h = RecHandler::default();
         extract_measurements_inner(objs, &mut h);
         for e in h.take() {
@@ -651,7 +918,9 @@ pub fn run_case(case: &Case) -> CaseOut {
                     }
                 }
                 Req::StaticAll(ty, k) => sel(*ty % 8, 0, 65535, svar(*ty % 8, *k)),
-                Req::StaticRange(ty, k, a, b) => sel(*ty % 8, *a.min(b), *a.max(b), svar(*ty % 8, *k)),
+                Req::StaticRange(ty, k, a, b) => {
+                    sel(*ty % 8, *a.min(b), *a.max(b), svar(*ty % 8, *k))
+                }
                 _ => {}
             }
         }
@@ -688,16 +957,30 @@ pub fn run_case(case: &Case) -> CaseOut {
         let key = (*ty, item.index);
         let name = TYPE_NAMES.get(*ty as usize).copied().unwrap_or("?");
         if *ty > 7 {
-            fail(&mut out, "V-fabricated", format!("handler received g{g}v{v} index {} of a type the database does not hold", item.index));
+            fail(
+                &mut out,
+                "V-fabricated",
+                format!(
+                    "handler received g{g}v{v} index {} of a type the database does not hold",
+                    item.index
+                ),
+            );
             return out;
         }
         if *is_event {
             if *g != EVENT_GROUP[*ty as usize] {
-                fail(&mut out, "V-cross-type", format!("{name} event delivered from group {g}"));
+                fail(
+                    &mut out,
+                    "V-cross-type",
+                    format!("{name} event delivered from group {g}"),
+                );
                 return out;
             }
             // the k-th delivered event of a point is the k-th selected recorded event of that point
-            let list: Vec<&Ev> = events.iter().filter(|e| (e.ty, e.index) == key && selects_event(e)).collect();
+            let list: Vec<&Ev> = events
+                .iter()
+                .filter(|e| (e.ty, e.index) == key && selects_event(e))
+                .collect();
             let k = ev_pos.entry(key).or_default();
             let Some(e) = list.get(*k) else {
                 fail(&mut out, "V-fabricated", format!("{name} event #{} for index {} delivered but only {} were recorded and selected", *k + 1, item.index, list.len()));
@@ -721,17 +1004,32 @@ pub fn run_case(case: &Case) -> CaseOut {
                     }
                 }
                 Err(d) => {
-                    fail(&mut out, "V-event-content", format!("{name}[{}] event {:?} via g{g}v{v}: {d}", item.index, e.rec));
+                    fail(
+                        &mut out,
+                        "V-event-content",
+                        format!("{name}[{}] event {:?} via g{g}v{v}: {d}", item.index, e.rec),
+                    );
                     return out;
                 }
             }
         } else {
             if *g != STATIC_GROUP[*ty as usize] {
-                fail(&mut out, "V-cross-type", format!("{name} static value delivered from group {g}"));
+                fail(
+                    &mut out,
+                    "V-cross-type",
+                    format!("{name} static value delivered from group {g}"),
+                );
                 return out;
             }
             let Some(rec) = cur.get(&key) else {
-                fail(&mut out, "V-fabricated", format!("{name} index {} delivered but no such point exists", item.index));
+                fail(
+                    &mut out,
+                    "V-fabricated",
+                    format!(
+                        "{name} index {} delivered but no such point exists",
+                        item.index
+                    ),
+                );
                 return out;
             };
             static_seen.entry(key).or_default().push(*v);
@@ -745,7 +1043,11 @@ pub fn run_case(case: &Case) -> CaseOut {
                     }
                 }
                 Err(d) => {
-                    fail(&mut out, "V-static-content", format!("{name}[{}] current {:?} via g{g}v{v}: {d}", item.index, rec));
+                    fail(
+                        &mut out,
+                        "V-static-content",
+                        format!("{name}[{}] current {:?} via g{g}v{v}: {d}", item.index, rec),
+                    );
                     return out;
                 }
             }
@@ -791,16 +1093,33 @@ pub fn run_case(case: &Case) -> CaseOut {
         }
     }
     if let Some((key, v)) = static_seen.iter().next() {
-        fail(&mut out, "V-static-once", format!("{}[{}] delivered {:?} although no request header selects it", TYPE_NAMES[key.0 as usize], key.1, v));
+        fail(
+            &mut out,
+            "V-static-once",
+            format!(
+                "{}[{}] delivered {:?} although no request header selects it",
+                TYPE_NAMES[key.0 as usize], key.1, v
+            ),
+        );
         return out;
     }
     // every selected event delivered (when no count limit truncates the selection)
     if !limited {
         for e in events.iter().filter(|e| selects_event(e)) {
-            let n = events.iter().filter(|x| (x.ty, x.index) == (e.ty, e.index) && selects_event(x)).count();
+            let n = events
+                .iter()
+                .filter(|x| (x.ty, x.index) == (e.ty, e.index) && selects_event(x))
+                .count();
             let d = ev_pos.get(&(e.ty, e.index)).copied().unwrap_or(0);
             if d != n {
-                fail(&mut out, "V-event-once", format!("{}[{}]: {} selected events recorded, {} delivered", TYPE_NAMES[e.ty as usize], e.index, n, d));
+                fail(
+                    &mut out,
+                    "V-event-once",
+                    format!(
+                        "{}[{}]: {} selected events recorded, {} delivered",
+                        TYPE_NAMES[e.ty as usize], e.index, n, d
+                    ),
+                );
                 return out;
             }
         }
@@ -808,8 +1127,14 @@ pub fn run_case(case: &Case) -> CaseOut {
     if delivered_events > 0 {
         out.label("events_delivered");
     }
-    let any_nontrivial = out.labels.iter().any(|l| l == "lossy_variation" || l == "relative_time" || l == "promoted");
-    let flagged = cur.values().any(|r| r.flags != ONLINE) || events.iter().any(|e| e.rec.flags != ONLINE || e.rec.time.is_some());
+    let any_nontrivial = out
+        .labels
+        .iter()
+        .any(|l| l == "lossy_variation" || l == "relative_time" || l == "promoted");
+    let flagged = cur.values().any(|r| r.flags != ONLINE)
+        || events
+            .iter()
+            .any(|e| e.rec.flags != ONLINE || e.rec.time.is_some());
     out.nontrivial = !got.is_empty() && (any_nontrivial || flagged);
     out
 }
@@ -819,9 +1144,48 @@ pub fn run_case(case: &Case) -> CaseOut {
 
 fn analog_bits() -> BoxedStrategy<u64> {
     let b: Vec<f64> = vec![
-        0.0, -0.0, 1.0, -1.0, 0.5, -0.5, 0.1, 32767.0, 32768.0, 32769.0, 32767.5, -32767.0, -32768.0, -32769.0, -32768.5, 2147483647.0, 2147483648.0, 2147483649.0, 2147483647.5, -2147483648.0,
-        -2147483649.0, -2147483648.5, 16777217.0, f32::MAX as f64, -(f32::MAX as f64), f64::from_bits((f32::MAX as f64).to_bits() + 1), -f64::from_bits((f32::MAX as f64).to_bits() + 1), (f32::MAX as f64) * 2.0,
-        f32::MIN_POSITIVE as f64, 1e-40, 5e-324, f64::MAX, f64::MIN, f64::INFINITY, f64::NEG_INFINITY, f64::NAN, 4294967296.0, -4294967296.0, 65536.0, -65536.0, 1e300, -1e300,
+        0.0,
+        -0.0,
+        1.0,
+        -1.0,
+        0.5,
+        -0.5,
+        0.1,
+        32767.0,
+        32768.0,
+        32769.0,
+        32767.5,
+        -32767.0,
+        -32768.0,
+        -32769.0,
+        -32768.5,
+        2147483647.0,
+        2147483648.0,
+        2147483649.0,
+        2147483647.5,
+        -2147483648.0,
+        -2147483649.0,
+        -2147483648.5,
+        16777217.0,
+        f32::MAX as f64,
+        -(f32::MAX as f64),
+        f64::from_bits((f32::MAX as f64).to_bits() + 1),
+        -f64::from_bits((f32::MAX as f64).to_bits() + 1),
+        (f32::MAX as f64) * 2.0,
+        f32::MIN_POSITIVE as f64,
+        1e-40,
+        5e-324,
+        f64::MAX,
+        f64::MIN,
+        f64::INFINITY,
+        f64::NEG_INFINITY,
+        f64::NAN,
+        4294967296.0,
+        -4294967296.0,
+        65536.0,
+        -65536.0,
+        1e300,
+        -1e300,
     ];
     prop_oneof![
         4 => proptest::sample::select(b).prop_map(|x| x.to_bits()),
@@ -877,13 +1241,39 @@ fn point() -> impl Strategy<Value = PointSpec> {
     (0u8..8, index_val(), 1u8..=3, any::<u8>(), any::<u8>()).prop_map(|(ty, index, class, s, e)| {
         let sv = STATIC_VARS[ty as usize];
         let ev = EVENT_VARS[ty as usize];
-        PointSpec { ty, index, class, svar: sv[s as usize % sv.len()], evar: ev[e as usize % ev.len()] }
+        PointSpec {
+            ty,
+            index,
+            class,
+            svar: sv[s as usize % sv.len()],
+            evar: ev[e as usize % ev.len()],
+        }
     })
 }
 
 fn upd() -> impl Strategy<Value = Upd> {
-    (any::<u16>(), analog_bits(), counter_val(), proptest::collection::vec(any::<u8>(), 0..6), flags_val(), time_val(), prop_oneof![2 => Just(0u8), 3 => Just(1u8), 1 => Just(2u8)], prop_oneof![5 => Just(true), 1 => Just(false)])
-        .prop_map(|(point, a, c, bytes, flags, time, mode, update_static)| Upd { point, a, c, bytes, flags, time, mode, update_static })
+    (
+        any::<u16>(),
+        analog_bits(),
+        counter_val(),
+        proptest::collection::vec(any::<u8>(), 0..6),
+        flags_val(),
+        time_val(),
+        prop_oneof![2 => Just(0u8), 3 => Just(1u8), 1 => Just(2u8)],
+        prop_oneof![5 => Just(true), 1 => Just(false)],
+    )
+        .prop_map(
+            |(point, a, c, bytes, flags, time, mode, update_static)| Upd {
+                point,
+                a,
+                c,
+                bytes,
+                flags,
+                time,
+                mode,
+                update_static,
+            },
+        )
 }
 
 fn req() -> impl Strategy<Value = Req> {
@@ -910,7 +1300,13 @@ fn case_strategy(tier: Tier) -> BoxedStrategy<Case> {
         proptest::option::weighted(0.2, 1u8..8),
         prop_oneof![2 => Just(2048u16), 3 => Just(249u16), 1 => Just(292u16), 2 => 249u16..=2048],
     )
-        .prop_map(|(points, updates, reqs, unsol, tx)| Case { points, updates, reqs, unsol, tx })
+        .prop_map(|(points, updates, reqs, unsol, tx)| Case {
+            points,
+            updates,
+            reqs,
+            unsol,
+            tx,
+        })
         .boxed()
 }
 
@@ -935,7 +1331,13 @@ impl Prop for Trip {
         run_case(case)
     }
     fn floors() -> Vec<(&'static str, u32)> {
-        vec![("lossy_variation", 100), ("relative_time", 20), ("promoted", 20), ("events_delivered", 200), ("multi_fragment", 5)]
+        vec![
+            ("lossy_variation", 100),
+            ("relative_time", 20),
+            ("promoted", 20),
+            ("events_delivered", 200),
+            ("multi_fragment", 5),
+        ]
     }
 }
 
